@@ -884,7 +884,9 @@ silent('c13-generic-child-discovery', 'C13',
 
 # ------------------------------------------------------------------ C14
 fire('c14-revert-f5-literal', 'C14',
-     [(C, "        except (ValueError, TypeError, SyntaxError, MemoryError,\n                RecursionError):\n            pass", "        except ValueError:\n            pass")], 'C14.COVER')
+     [(C, "        except (ValueError, TypeError, SyntaxError, MemoryError,\n                RecursionError, OverflowError):\n            pass", "        except ValueError:\n            pass")], 'C14.COVER')
+fire('c14-revert-f10', 'C14',
+     [(C, "                RecursionError, OverflowError):\n            pass", "                RecursionError):\n            pass")], 'C14.COVER')
 fire('c14-revert-f5-walk', 'C14',
      [(C, "        except (KeyError, TypeError):\n            return False", "        except KeyError:\n            return False")], 'C14.COVER')
 fire('c14-no-roles-guard', 'C14',
